@@ -42,6 +42,9 @@ def gen_plan(rng, index, tier):
     if rng.random() < 0.4:
         bp["pins"] = True  # blocks with a pin lattice: components carry multi-index / coordinate locators in the block's grid
         bp["pinrings"] = 2
+    if rng.random() < 0.25:
+        # square assemblies on a Cartesian grid (Cartesian pin lattices when there are pins)
+        bp.update({"geom": "cartesian", "symmetry": rng.choice(["full", "quarter reflective through center assembly"])})
     cfg = {"reactor": "gen", "blueprint": bp, "settings": {"nCycles": 1, "burnSteps": 1}, "actors": [], "ngeneric": rng.randint(4, 9), "rejected": rng.random() < 0.15}
     steps = []
     kinds = ["g_add", "g_add", "g_insert", "g_remove", "g_removeAll", "g_setChildren", "a_remove", "a_add", "a_insert", "a_reorder", "a_sort", "a_removeAll", "a_setChildren", "b_remove", "b_add", "b_replace", "copy", "pickle", "detach_copy"]
@@ -392,11 +395,15 @@ class Universe:
             # components that nothing else in the block is linked to and that do not define the pitch
             blk = O[b]
             cands = []
+            try:
+                pitch_comp = blk.getPitch(returnComp=True)[1]
+            except ValueError:
+                pitch_comp = None
             for c in self.kids[b]:
                 co = O[c]
                 if isinstance(co, DerivedShape):
                     continue
-                if co is blk.getLargestComponent("op"):
+                if co is blk.getLargestComponent("op") or co is pitch_comp:
                     continue
                 linked = any(isinstance(x.p[d], tuple) and x.p[d][0] is co for x in blk if x is not co for d in x.DIMENSION_NAMES)
                 if not linked:
@@ -432,6 +439,8 @@ class Universe:
             O[b].replaceBlockWithBlock(O[r])
             for c in list(self.kids[b]):
                 self.m_detach(b, c)
+            # components taken out of the old design have no place in the new one
+            self.origin = {c: bb for c, bb in self.origin.items() if bb != b}
             new = list(O[b])
             if len(new) != want:
                 self.fail("C01.shape", f"step {k}: replaceBlockWithBlock gave {O[b]} {len(new)} children, the replacement block has {want}", what="replace-count", op=op)
@@ -502,7 +511,9 @@ class Universe:
                 if c.parent is not x:
                     self.fail("C01.copy", f"step {k}: in the {op}, child {c} of {x} points at parent {c.parent}", what="relink-parent", op=op)
             g = x.spatialGrid
-            if g is not None:
+            if g is not None and xa.spatialGrid is not None and xa.spatialGrid.armiObject is xa:
+                # (a Cartesian block without a pin lattice uses a grid it does not own - the core's;
+                # where the owner lies outside the copied subtree the statement promises nothing)
                 if g.armiObject is not x:
                     self.fail("C01.copy", f"step {k}: in the {op}, the grid of {x} belongs to {g.armiObject}", what="relink-grid", op=op)
                 for ca, c in zip(list(xa), list(x)):
